@@ -49,21 +49,37 @@ theorem hasRaise_append (a b : List Obs) : hasRaise (a ++ b) = (hasRaise a || ha
 
 /-! ### `_call_handler` -/
 
+/-- the macro-recording records in the log are neither deliveries, nor pops, nor raises -/
+theorem recordMacro_log (I : Iface σ) (wasE wasV : Bool) (w : σ) (b : Binding) (seq : List KP) :
+    delivered (recordMacro I wasE wasV w b seq).2 = [] ∧
+    popped (recordMacro I wasE wasV w b seq).2 = [] ∧
+    hasRaise (recordMacro I wasE wasV w b seq).2 = false := by
+  unfold recordMacro
+  split
+  · simp only []
+    split <;> split <;> simp [delivered, popped, hasRaise]
+  · simp [delivered, popped, hasRaise]
+
 theorem callHandler_buffer (I : Iface σ) (ps : PS σ) (b : Binding) (seq : List KP) :
     (callHandler I ps b seq).1.buffer = ps.buffer := by
-  cases h : (I.call ps.w ps.queue b seq ps.prev).2.2 <;> simp [callHandler, h]
+  cases h : (I.call ps.w ps.queue b seq ps.prev (eventOf ps b)).2.2 <;> simp [callHandler, h]
 
 theorem callHandler_ok (I : Iface σ) (ps : PS σ) (b : Binding) (seq : List KP)
     (h : (callHandler I ps b seq).2.2 = false) :
     delivered (callHandler I ps b seq).2.1 = seq ∧ popped (callHandler I ps b seq).2.1 = [] ∧
     hasRaise (callHandler I ps b seq).2.1 = false ∧ (callHandler I ps b seq).1.prev = seq := by
-  cases h' : (I.call ps.w ps.queue b seq ps.prev).2.2 <;>
-    simp_all [callHandler, delivered, popped, hasRaise]
+  have hm := recordMacro_log I (I.recE ps.w) (I.recV ps.w)
+    (I.call ps.w ps.queue b seq ps.prev (eventOf ps b)).1 b seq
+  cases h' : (I.call ps.w ps.queue b seq ps.prev (eventOf ps b)).2.2 <;>
+    simp_all [callHandler, delivered, popped, hasRaise, delivered_append, popped_append,
+      hasRaise_append]
 
 theorem callHandler_raise (I : Iface σ) (ps : PS σ) (b : Binding) (seq : List KP)
     (h : (callHandler I ps b seq).2.2 = true) :
-    (callHandler I ps b seq).2.1 = [.raise b.hid seq ps.prev] := by
-  cases h' : (I.call ps.w ps.queue b seq ps.prev).2.2 <;> simp_all [callHandler]
+    (callHandler I ps b seq).2.1 =
+      [.ev ps.arg (ps.prevH == some b.bid), .raise b.hid seq ps.prev] := by
+  cases h' : (I.call ps.w ps.queue b seq ps.prev (eventOf ps b)).2.2 <;>
+    simp_all [callHandler, eventOf]
 
 /-! ### conservation: one decision -/
 
@@ -195,7 +211,7 @@ theorem cprResponse_spec (I : Iface σ) (ps : PS σ) (kp : KP) :
   cases hm : (getMatches I ps.w [kp]).2.getLast? with
   | none => simp [cprResponse, hm, delivered, popped, hasRaise]
   | some b =>
-    cases ho : (I.call (getMatches I ps.w [kp]).1 ps.queue b [kp] ps.prev).2.2 <;>
+    cases ho : (I.call (getMatches I ps.w [kp]).1 ps.queue b [kp] ps.prev {}).2.2 <;>
       simp [cprResponse, hm, ho, delivered, popped, hasRaise]
 
 /-- one key taken from the queue: an ordinary key or a timeout goes through the matching loop, a
@@ -216,14 +232,16 @@ theorem dispatchKey_conserv (I : Iface σ) (ps : PS σ) (kp : KP) :
 
 /-- One iteration of the `process_keys` loop.  `kp` is the key taken from the queue.
     Without a raise: delivered/dropped keys ++ new buffer = old buffer ++ [kp].
-    With a raise: the processor is reset (empty buffer, empty queue, no previous sequence);
+    With a raise: the processor is reset (empty buffer, empty queue, no previous sequence, no
+    previous handler, no numeric argument);
     the keys not delivered before (`lost`, beginning with the raising handler's keys) are gone. -/
 theorem pkStep_conserv (I : Iface σ) (ps ps' : PS σ) (obs : List Obs) (raised : Bool)
     (h : pkStep I ps = some (ps', obs, raised)) :
     ∃ kp q, getNext I ps = some (kp, q) ∧
       popped obs = (if kp.isFlush || kp.isCpr then [] else [kp]) ∧ hasRaise obs = raised ∧
       (raised = false → delivered obs ++ ps'.buffer = ps.buffer ++ popped obs) ∧
-      (raised = true → (ps'.buffer = [] ∧ ps'.queue = [] ∧ ps'.prev = []) ∧
+      (raised = true → (ps'.buffer = [] ∧ ps'.queue = [] ∧ ps'.prev = [] ∧ ps'.arg = none ∧
+            ps'.prevH = none) ∧
           ∃ lost, delivered obs ++ lost = ps.buffer ++ popped obs) := by
   unfold pkStep at h
   split at h
@@ -299,8 +317,9 @@ theorem conservation (I : Iface σ) (n : Nat) (ps : PS σ) :
           exact ⟨lost, by rw [List.append_assoc, hl, ← List.append_assoc, h1, List.append_assoc]⟩
 
 /-- **A handler that raises leaves the processor reset**: whenever `process_keys()` ends with an
-    exception, key buffer, input queue and previous key sequence are empty — the state of a
-    freshly constructed processor in the same world, so it is usable as a new one. -/
+    exception, key buffer, input queue and previous key sequence are empty, the numeric argument
+    and the previous handler are forgotten — the state of a freshly constructed processor in the
+    same world, so it is usable as a new one. -/
 theorem raise_resets (I : Iface σ) (n : Nat) (ps : PS σ)
     (h : (processKeys I n ps).2.2 = true) :
     (processKeys I n ps).1 = { w := (processKeys I n ps).1.w } := by
@@ -315,7 +334,7 @@ theorem raise_resets (I : Iface σ) (n : Nat) (ps : PS σ)
       cases raised with
       | true =>
         obtain ⟨_, _, _, _, _, _, hbad⟩ := pkStep_conserv I ps ps' obs true hk
-        obtain ⟨⟨b1, b2, b3⟩, _⟩ := hbad rfl
+        obtain ⟨⟨b1, b2, b3, b4, b5⟩, _⟩ := hbad rfl
         simp
         cases ps'; simp_all
       | false =>
@@ -325,13 +344,13 @@ theorem raise_resets (I : Iface σ) (n : Nat) (ps : PS σ)
 /-- an exception leaves `process_keys` only if some handler raised one (for a CPR response also
     an EditReadOnlyBuffer counts: `_process_cpr_response` calls the binding directly) -/
 theorem raise_only_from_handler (I : Iface σ) (n : Nat) (ps : PS σ)
-    (hok : ∀ w q b s p, (I.call w q b s p).2.2 ≠ .raise)
-    (hcpr : ∀ w q b k p, k.isCpr = true → (I.call w q b [k] p).2.2 = .ok) :
+    (hok : ∀ w q b s p x, (I.call w q b s p x).2.2 ≠ .raise)
+    (hcpr : ∀ w q b k p x, k.isCpr = true → (I.call w q b [k] p x).2.2 = .ok) :
     (processKeys I n ps).2.2 = false := by
   have key : ∀ (ps : PS σ) b seq, (callHandler I ps b seq).2.2 = false := by
     intro ps b seq
-    have := hok ps.w ps.queue b seq ps.prev
-    cases h : (I.call ps.w ps.queue b seq ps.prev).2.2 <;> simp_all [callHandler]
+    have := hok ps.w ps.queue b seq ps.prev (eventOf ps b)
+    cases h : (I.call ps.w ps.queue b seq ps.prev (eventOf ps b)).2.2 <;> simp_all [callHandler]
   have hexec : ∀ (ps : PS σ) d, (exec I ps d).2.2 ≠ .dead := by
     intro ps d
     cases d <;> simp [exec, key]
@@ -361,7 +380,7 @@ theorem raise_only_from_handler (I : Iface σ) (n : Nat) (ps : PS σ)
       cases hm : (getMatches I ps.w [kp]).2.getLast? with
       | none => simp [cprResponse, hm]
       | some b =>
-        have := hcpr (getMatches I ps.w [kp]).1 ps.queue b kp ps.prev hc
+        have := hcpr (getMatches I ps.w [kp]).1 ps.queue b kp ps.prev {} hc
         simp [cprResponse, hm, this]
     · simp only [hc]; exact hsend ps kp
   induction n generalizing ps with
@@ -439,13 +458,21 @@ theorem taken_append (a b : List Obs) : taken (a ++ b) = taken a ++ taken b := b
   | cons x xs ih => cases x <;> simp [taken, ih]
 
 section
-variable (I : Iface σ) (hq : ∀ w q b s p, (I.call w q b s p).2.1 = q) (hd : ∀ w, I.done w = false)
+variable (I : Iface σ) (hq : ∀ w q b s p x, (I.call w q b s p x).2.1 = q) (hd : ∀ w, I.done w = false)
 include hq
 
 theorem callHandler_queue (ps : PS σ) (b : Binding) (seq : List KP) :
     (callHandler I ps b seq).1.queue = ps.queue ∧ taken (callHandler I ps b seq).2.1 = [] := by
-  have := hq ps.w ps.queue b seq ps.prev
-  cases h : (I.call ps.w ps.queue b seq ps.prev).2.2 <;> simp [callHandler, h, this, taken]
+  have := hq ps.w ps.queue b seq ps.prev (eventOf ps b)
+  have hm : taken (recordMacro I (I.recE ps.w) (I.recV ps.w)
+      (I.call ps.w ps.queue b seq ps.prev (eventOf ps b)).1 b seq).2 = [] := by
+    unfold recordMacro
+    split
+    · simp only []
+      split <;> split <;> simp [taken]
+    · simp [taken]
+  cases h : (I.call ps.w ps.queue b seq ps.prev (eventOf ps b)).2.2 <;>
+    simp [callHandler, h, this, taken, taken_append, hm]
 
 theorem exec_queue (ps : PS σ) (d : Decision) :
     (exec I ps d).1.queue = ps.queue ∧ taken (exec I ps d).2.1 = [] := by
@@ -479,8 +506,8 @@ theorem cprResponse_queue (ps : PS σ) (kp : KP) :
   cases hm : (getMatches I ps.w [kp]).2.getLast? with
   | none => simp [cprResponse, hm, taken]
   | some b =>
-    have := hq (getMatches I ps.w [kp]).1 ps.queue b [kp] ps.prev
-    cases ho : (I.call (getMatches I ps.w [kp]).1 ps.queue b [kp] ps.prev).2.2 <;>
+    have := hq (getMatches I ps.w [kp]).1 ps.queue b [kp] ps.prev {}
+    cases ho : (I.call (getMatches I ps.w [kp]).1 ps.queue b [kp] ps.prev {}).2.2 <;>
       simp [cprResponse, hm, ho, taken, this]
 
 include hd in
@@ -511,9 +538,17 @@ theorem exec_requeued (ps : PS σ) (d : Decision) : requeued (exec I ps d).2.1 =
   | wait => simp [exec, requeued]
   | dropOne => cases hb : ps.buffer <;> simp [exec, hb, requeued]
   | fire b n e =>
+    have hm : requeued (recordMacro I (I.recE ps.w) (I.recV ps.w)
+        (I.call ps.w ps.queue b (ps.buffer.take n) ps.prev (eventOf ps b)).1 b
+        (ps.buffer.take n)).2 = [] := by
+      unfold recordMacro
+      split
+      · simp only []
+        split <;> split <;> simp [requeued]
+      · simp [requeued]
     simp only [exec]
-    cases h : (I.call ps.w ps.queue b (ps.buffer.take n) ps.prev).2.2 <;>
-      simp [callHandler, h, requeued]
+    cases h : (I.call ps.w ps.queue b (ps.buffer.take n) ps.prev (eventOf ps b)).2.2 <;>
+      simp [callHandler, h, requeued, requeued_append, hm]
 
 /-- **Typeahead after exit**: when handlers do not feed keys, one `send` leaves the input queue
     as it was except that the keys it pushed back (application done, on a retry) are now at its
@@ -595,17 +630,17 @@ end
 
 /-- bindings `a`→h0, `a b`→h1, `Any`→h2 (active iff condition 0; h2 raises), `b`→h3 eager -/
 def toyBs : List Binding :=
-  [ { keys := [2], hid := 0, filter := .always, eager := .never, isGlobal := .never },
-    { keys := [2, 3], hid := 1, filter := .always, eager := .never, isGlobal := .never },
-    { keys := [0], hid := 2, filter := .cond 2 0, eager := .never, isGlobal := .never },
-    { keys := [3], hid := 3, filter := .always, eager := .always, isGlobal := .never } ]
+  [ { keys := [2], hid := 0, filter := .always, eager := .never, isGlobal := .never, bid := 1 },
+    { keys := [2, 3], hid := 1, filter := .always, eager := .never, isGlobal := .never, bid := 2 },
+    { keys := [0], hid := 2, filter := .cond 2 0, eager := .never, isGlobal := .never, bid := 3 },
+    { keys := [3], hid := 3, filter := .always, eager := .always, isGlobal := .never, bid := 4 } ]
 
 /-- world state = value of condition 0; handler 2 raises, the others return -/
 def toyI : Iface Bool where
   getFor := fun w ks => (w, matchFor toyBs ks)
   getStart := fun w ks => (w, matchStarting toyBs ks)
   evalF := fun w f => f.eval (fun _ => w)
-  call := fun w q b _ _ => (w, q, if b.hid == 2 then .raise else .ok)
+  call := fun w q b _ _ _ => (w, q, if b.hid == 2 then .raise else .ok)
   done := fun _ => false
 
 /-- queue `a c a b a` -/
@@ -623,20 +658,21 @@ example : delivered (processKeys toyI 10 (toyPS false)).2.1
     handler while keys are still queued; afterwards everything is empty -/
 example : (processKeys toyI 10 (toyPS true)).2.2 = true ∧
     (processKeys toyI 10 (toyPS true)).2.1 =
-      [.pop (.key 2 1), .before, .after, .pop (.key 5 2), .before, .call 0 [.key 2 1] [],
-       .raise 2 [.key 5 2] [.key 2 1]] ∧
+      [.pop (.key 2 1), .before, .after, .pop (.key 5 2), .before, .ev none false,
+       .call 0 [.key 2 1] [], .ev none false, .raise 2 [.key 5 2] [.key 2 1]] ∧
     (processKeys toyI 10 (toyPS true)).1.queue = [] := by decide
 
 /-- the hypotheses of `queue_order` hold in the toy world -/
-example : (∀ w q b s p, (toyI.call w q b s p).2.1 = q) ∧ (∀ w, toyI.done w = false) ∧
+example : (∀ w q b s p x, (toyI.call w q b s p x).2.1 = q) ∧ (∀ w, toyI.done w = false) ∧
     (processKeys toyI 3 (toyPS false)).2.2 = false ∧
     taken (processKeys toyI 3 (toyPS false)).2.1 = [.key 2 1, .key 5 2, .key 2 3] ∧
     (processKeys toyI 3 (toyPS false)).1.queue = [.key 3 4, .key 2 5] := by
-  refine ⟨fun _ _ _ _ _ => rfl, fun _ => rfl, by decide, by decide, by decide⟩
+  refine ⟨fun _ _ _ _ _ _ => rfl, fun _ => rfl, by decide, by decide, by decide⟩
 
 /-- the hypothesis of `raise_only_from_handler` holds e.g. for the toy world without handler 2 -/
-example : ∀ w q b s p, ({ toyI with call := fun w q _ _ _ => (w, q, .ok) } : Iface Bool).call w q b s p
+example : ∀ w q b s p x,
+    ({ toyI with call := fun w q _ _ _ _ => (w, q, .ok) } : Iface Bool).call w q b s p x
     |>.2.2 ≠ .raise := by
-  intro w q b s p; simp
+  intro w q b s p x; simp
 
 end Ptk.C04
